@@ -18,6 +18,13 @@ type c12case struct {
 	Fn    string   // genkey | testpriv | derive | oncurve
 	Args  []string // hex
 	Shape string
+	c12opts
+}
+
+type c12opts struct {
+	// Served (genkey): the stream is delivered by a servedReader (answers produced by another goroutine while the
+	// caller's stack is moved) and the call is made on a fresh goroutine
+	Served bool
 }
 
 func c12eval(r *vx.R, c c12case) {
@@ -32,7 +39,12 @@ func c12eval(r *vx.R, c c12case) {
 		rd := stream(a...)
 		var priv, x, y []byte
 		var err error
-		kind, msg := vx.Try(func() { priv, x, y, err = sm2.GenerateKey(rd) })
+		var kind, msg string
+		if c.Served {
+			onFresh(func() { kind, msg = vx.Try(func() { priv, x, y, err = sm2.GenerateKey(&servedReader{inner: rd}) }) })
+		} else {
+			kind, msg = vx.Try(func() { priv, x, y, err = sm2.GenerateKey(rd) })
+		}
 		if kind != "" {
 			cls := "other"
 			for _, cand := range a {
@@ -255,6 +267,11 @@ func TestVX_C12(t *testing.T) {
 		}
 		c12eval(r, c)
 		r.Sample(c)
+		if c.Fn == "genkey" {
+			c.Served = true
+			c.Shape += ":served"
+			c12eval(r, c)
+		}
 	}
 	kb := keyBoundary()
 	rej := []string{"0", "n-1", "n", "n+1", "max"}
@@ -267,7 +284,7 @@ func TestVX_C12(t *testing.T) {
 			for _, nm := range names {
 				args = append(args, vx.Hex(b32(kb[nm])))
 			}
-			run(c12case{"genkey", args, fmt.Sprintf("%v", names)})
+			run(c12case{"genkey", args, fmt.Sprintf("%v", names), c12opts{}})
 		}
 		if depth == 3 {
 			return
@@ -285,17 +302,17 @@ func TestVX_C12(t *testing.T) {
 				args = append(args, vx.Hex(b32(kb[x])))
 			}
 			args = append(args, vx.Hex(b32(kb["seeded"])))
-			run(c12case{"genkey", args, fmt.Sprintf("run:%s x%d", x, m)})
+			run(c12case{"genkey", args, fmt.Sprintf("run:%s x%d", x, m), c12opts{}})
 		}
 	}
 	// streams that end before a valid candidate
-	run(c12case{"genkey", []string{vx.Hex(b32(kb["n"]))}, "only-rejected"})
-	run(c12case{"genkey", nil, "empty-stream"})
+	run(c12case{"genkey", []string{vx.Hex(b32(kb["n"]))}, "only-rejected", c12opts{}})
+	run(c12case{"genkey", nil, "empty-stream", c12opts{}})
 	// TestPrivateKey / DerivePublic
 	for _, name := range sortedKeys(kb) {
 		v := kb[name]
-		run(c12case{"testpriv", []string{vx.Hex(b32(v))}, name})
-		run(c12case{"derive", []string{vx.Hex(b32(v))}, name})
+		run(c12case{"testpriv", []string{vx.Hex(b32(v))}, name, c12opts{}})
+		run(c12case{"derive", []string{vx.Hex(b32(v))}, name, c12opts{}})
 	}
 	nm1 := b32(kb["n-1"])
 	for i := 0; i < 32; i++ {
@@ -314,7 +331,7 @@ func TestVX_C12(t *testing.T) {
 						b[k] = 0xff
 					}
 				}
-				run(c12case{"testpriv", []string{vx.Hex(b)}, fmt.Sprintf("nm1:byte%d%+d:t%d", i, d, tail)})
+				run(c12case{"testpriv", []string{vx.Hex(b)}, fmt.Sprintf("nm1:byte%d%+d:t%d", i, d, tail), c12opts{}})
 			}
 		}
 	}
@@ -324,9 +341,9 @@ func TestVX_C12(t *testing.T) {
 		}
 		for _, fill := range []byte{0, 1, 0xff} {
 			b := bytes.Repeat([]byte{fill}, l)
-			run(c12case{"testpriv", []string{vx.Hex(b)}, fmt.Sprintf("len%d:%02x", l, fill)})
+			run(c12case{"testpriv", []string{vx.Hex(b)}, fmt.Sprintf("len%d:%02x", l, fill), c12opts{}})
 			if l == 0 || l == 1 || l == 31 || l == 33 {
-				run(c12case{"derive", []string{vx.Hex(b)}, fmt.Sprintf("len%d:%02x", l, fill)})
+				run(c12case{"derive", []string{vx.Hex(b)}, fmt.Sprintf("len%d:%02x", l, fill), c12opts{}})
 			}
 		}
 	}
@@ -346,60 +363,60 @@ func TestVX_C12(t *testing.T) {
 	for ki, k := range ks {
 		p := sm2ref.BaseMul(k)
 		x, y := b32(p.X), b32(p.Y)
-		run(c12case{"oncurve", hexs(x, y), fmt.Sprintf("k%d:valid", ki)})
-		run(c12case{"oncurve", hexs(y, x), fmt.Sprintf("k%d:swapped", ki)})
+		run(c12case{"oncurve", hexs(x, y), fmt.Sprintf("k%d:valid", ki), c12opts{}})
+		run(c12case{"oncurve", hexs(y, x), fmt.Sprintf("k%d:swapped", ki), c12opts{}})
 		if !vx.Thorough() && ki > 2 && ki < 17 {
 			continue
 		}
 		for bit := 0; bit < 256; bit++ {
 			fx := append([]byte{}, x...)
 			fx[bit/8] ^= 1 << uint(bit%8)
-			run(c12case{"oncurve", hexs(fx, y), fmt.Sprintf("k%d:flipx%d", ki, bit)})
+			run(c12case{"oncurve", hexs(fx, y), fmt.Sprintf("k%d:flipx%d", ki, bit), c12opts{}})
 			fy := append([]byte{}, y...)
 			fy[bit/8] ^= 1 << uint(bit%8)
-			run(c12case{"oncurve", hexs(x, fy), fmt.Sprintf("k%d:flipy%d", ki, bit)})
+			run(c12case{"oncurve", hexs(x, fy), fmt.Sprintf("k%d:flipy%d", ki, bit), c12opts{}})
 		}
 	}
 	for qi, q := range []sm2ref.Point{sm2ref.G(), sm2ref.BaseMul(modN(bi(vx.Fill("c12near", 32))))} {
 		xs, ys, names := sm2ref.NearCurvePoints(q)
 		for i := range xs {
-			run(c12case{"oncurve", hexs(b32(xs[i]), b32(ys[i])), fmt.Sprintf("near%d:%s", qi, names[i])})
-			run(c12case{"oncurve", hexs(b32(ys[i]), b32(xs[i])), fmt.Sprintf("near%d:%s:swapped", qi, names[i])})
+			run(c12case{"oncurve", hexs(b32(xs[i]), b32(ys[i])), fmt.Sprintf("near%d:%s", qi, names[i]), c12opts{}})
+			run(c12case{"oncurve", hexs(b32(ys[i]), b32(xs[i])), fmt.Sprintf("near%d:%s:swapped", qi, names[i]), c12opts{}})
 		}
 	}
 	for pi, P := range sm2ref.SmallXPoints(6) {
-		run(c12case{"oncurve", hexs(b32(P.X), b32(P.Y)), fmt.Sprintf("smallx%d:canonical", pi)})
-		run(c12case{"oncurve", hexs(b32(new(big.Int).Add(P.X, sm2ref.P)), b32(P.Y)), fmt.Sprintf("smallx%d:x+p", pi)})
+		run(c12case{"oncurve", hexs(b32(P.X), b32(P.Y)), fmt.Sprintf("smallx%d:canonical", pi), c12opts{}})
+		run(c12case{"oncurve", hexs(b32(new(big.Int).Add(P.X, sm2ref.P)), b32(P.Y)), fmt.Sprintf("smallx%d:x+p", pi), c12opts{}})
 		if yp := new(big.Int).Add(P.Y, sm2ref.P); yp.BitLen() <= 256 {
-			run(c12case{"oncurve", hexs(b32(P.X), b32(yp)), fmt.Sprintf("smallx%d:y+p", pi)})
+			run(c12case{"oncurve", hexs(b32(P.X), b32(yp)), fmt.Sprintf("smallx%d:y+p", pi), c12opts{}})
 		}
 	}
 	g := sm2ref.G()
 	gx, gy := b32(g.X), b32(g.Y)
 	pB := b32(sm2ref.P)
-	run(c12case{"oncurve", hexs(make([]byte, 32), make([]byte, 32)), "zero-zero"})
-	run(c12case{"oncurve", hexs(pB, gy), "x=p"})
-	run(c12case{"oncurve", hexs(gx, pB), "y=p"})
-	run(c12case{"oncurve", hexs(bytes.Repeat([]byte{0xff}, 32), gy), "x=max"})
-	run(c12case{"oncurve", hexs(gx, bytes.Repeat([]byte{0xff}, 32)), "y=max"})
+	run(c12case{"oncurve", hexs(make([]byte, 32), make([]byte, 32)), "zero-zero", c12opts{}})
+	run(c12case{"oncurve", hexs(pB, gy), "x=p", c12opts{}})
+	run(c12case{"oncurve", hexs(gx, pB), "y=p", c12opts{}})
+	run(c12case{"oncurve", hexs(bytes.Repeat([]byte{0xff}, 32), gy), "x=max", c12opts{}})
+	run(c12case{"oncurve", hexs(gx, bytes.Repeat([]byte{0xff}, 32)), "y=max", c12opts{}})
 	// compensating length errors: x||y of an on-curve point cut at every position other than 32
 	for qi, q := range []sm2ref.Point{g, sm2ref.BaseMul(modN(bi(vx.Fill("c12split", 32))))} {
 		cat := append(b32(q.X), b32(q.Y)...)
 		for cut := 0; cut <= 64; cut++ {
 			if cut != 32 {
-				run(c12case{"oncurve", hexs(cat[:cut], cat[cut:]), fmt.Sprintf("split%d:%d", qi, cut)})
+				run(c12case{"oncurve", hexs(cat[:cut], cat[cut:]), fmt.Sprintf("split%d:%d", qi, cut), c12opts{}})
 			}
 		}
 	}
 	// results handed out earlier stay what they were while later calls run (no storage shared between results)
 	for i := 0; i < 3; i++ {
-		run(c12case{"retain", hexs(b32(modN(bi(vx.Fill(fmt.Sprintf("ret%da", i), 32)))), b32(modN(bi(vx.Fill(fmt.Sprintf("ret%db", i), 32)))), b32(big.NewInt(int64(i+1)))), fmt.Sprintf("retain%d", i)})
+		run(c12case{"retain", hexs(b32(modN(bi(vx.Fill(fmt.Sprintf("ret%da", i), 32)))), b32(modN(bi(vx.Fill(fmt.Sprintf("ret%db", i), 32)))), b32(big.NewInt(int64(i+1)))), fmt.Sprintf("retain%d", i), c12opts{}})
 	}
 	for _, l := range []int{0, 1, 31, 33, 64} {
-		run(c12case{"oncurve", hexs(make([]byte, l), gy), fmt.Sprintf("xlen%d", l)})
-		run(c12case{"oncurve", hexs(gx, make([]byte, l)), fmt.Sprintf("ylen%d", l)})
+		run(c12case{"oncurve", hexs(make([]byte, l), gy), fmt.Sprintf("xlen%d", l), c12opts{}})
+		run(c12case{"oncurve", hexs(gx, make([]byte, l)), fmt.Sprintf("ylen%d", l), c12opts{}})
 		if l < 32 {
-			run(c12case{"oncurve", hexs(gx[:l], gy), fmt.Sprintf("xtrunc%d", l)})
+			run(c12case{"oncurve", hexs(gx[:l], gy), fmt.Sprintf("xtrunc%d", l), c12opts{}})
 		}
 	}
 }
